@@ -15,6 +15,7 @@ CONSTANTS
  DevDangEnd = FALSE
  DevNoAtomResname = FALSE
  DevOrderedPairs = FALSE
+ DevGateOnce = FALSE
  DevDegree = FALSE
 INVARIANT FinalIsExpected
 CHECK_DEADLOCK FALSE
